@@ -381,6 +381,8 @@ def c15(tier):
                          stubs={"polygon": ["lineCrossesLine"]}, bound="one polygon segment x one cell-boundary segment (2-vertex loops), coordinates on a 2^-4 rad grid over the whole lat/lng range, boxes narrower than 3 rad (triangles / full doubles: no verdict in 1800 s)"))
     js.append(J("cross_reject_sound_g3", "C15_cross.c", ["-DNVX=2", "-DGRID=3"], unwind=5, us={"cellBoundaryCrossesGeoLoop.0": 5, "cellBoundaryCrossesGeoLoop.1": 5, "cellBoundaryCrossesGeoLoop.2": 5, "bboxFromGeoLoop.0": 5, "harness.0": 5, "harness.1": 5, "harness.2": 5, "harness.3": 5, "harness.4": 5, "harness.5": 5}, est=200, mem="M", timeout=700, core=False,
                 stubs={"polygon": ["lineCrossesLine"]}, bound="one polygon segment x one cell-boundary segment, coordinates on a 2^-3 rad grid, boxes narrower than 3 rad"))
+    js.append(J("cross_reject_sound_tri_g2", "C15_cross.c", ["-DNVL=3", "-DNVB=2", "-DGRID=2"], unwind=5, us={"cellBoundaryCrossesGeoLoop.0": 5, "cellBoundaryCrossesGeoLoop.1": 5, "cellBoundaryCrossesGeoLoop.2": 5, "bboxFromGeoLoop.0": 5, "harness.0": 5, "harness.1": 5, "harness.2": 5, "harness.3": 5, "harness.4": 5, "harness.5": 5}, est=600, mem="M", timeout=3000, tier="thorough", core=False,
+                stubs={"polygon": ["lineCrossesLine"]}, bound="triangle polygon loop (each edge in one orientation only) x one cell-boundary segment, coordinates on a 2^-2 rad grid, boxes narrower than 3 rad"))
     js += with_witness(J("capacity_4", "C15_bound.c", ["-DNSEQ=4"], unwind=8, est=10, stubs={"polyfill": ["iterInitPolygon", "iterStepPolygon", "iterDestroyPolygon"]}, bound="sequences <= 4 cells"))
     js += [J("capacity_6", "C15_bound.c", ["-DNSEQ=6"], unwind=10, est=20, stubs={"polyfill": ["iterInitPolygon", "iterStepPolygon", "iterDestroyPolygon"]}, bound="sequences <= 6 cells")]
     js += with_witness(J("polyglue", "C07_polyglue.c", [], unwind=5, est=10, stubs={"polygon": ["pointInsideGeoLoop", "cellBoundaryCrossesGeoLoop", "bboxFromGeoLoop"]}, bound="outer loop + 0-2 holes, any loop-level results"))
